@@ -10,13 +10,16 @@ for f in $FAMS; do
     rm -rf $D/md_$f
     TRACE=$D/t_$f.ndjson timeout 900 tlc -workers 1 -metadir $D/md_$f -config TraceObserver.cfg TraceObserver.tla > $D/o_$f.txt 2>&1
     grep -E '^\{"e":"(reset|cfg|call|cancel_all|destroy|cancel_op|resolve|resolve_end|attempt|attempt_end|fire)"' $D/t_$f.ndjson > $D/tc_$f.ndjson
-    TRACE=$D/tc_$f.ndjson timeout 900 tlc -workers 1 -metadir $D/mdc_$f -config TraceConn.cfg TraceConn.tla > $D/oc_$f.txt 2>&1 ) &
+    TRACE=$D/tc_$f.ndjson timeout 900 tlc -workers 1 -metadir $D/mdc_$f -config TraceConn.cfg TraceConn.tla > $D/oc_$f.txt 2>&1
+    grep -E '^\{"e":"(reset|cfg|c_write_end)"|^\{"e":"c_pkt".*"type":"PINGREQ"|^\{"e":"b_send".*"type":"CONNACK"|^\{"e":"h".*update_session' $D/t_$f.ndjson > $D/tk_$f.ndjson
+    TRACE=$D/tk_$f.ndjson timeout 900 tlc -workers 1 -metadir $D/mdk_$f -config TraceKeepAlive.cfg TraceKeepAlive.tla > $D/ok_$f.txt 2>&1 ) &
 done
 wait
 for f in $FAMS; do
   echo "== $f: $(cat $D/r_$f.txt | tr '\n' ' ') $(grep -E 'states generated' $D/o_$f.txt | cut -d' ' -f1-3)"
   grep -E "REJECT|rror|xception" $D/o_$f.txt | head -5
-  grep -E "REJECT|rror" $D/oc_$f.txt | head -3
-  echo "   conformance deviations (Conn.tla): $(grep -c '"DEV ' $D/oc_$f.txt)"
+  grep -E "REJECT|Error:" $D/oc_$f.txt | head -3
+  echo "   conformance deviations (Conn.tla): $(grep -c '"DEV ' $D/oc_$f.txt)  (KeepAlive.tla): $(grep -c '"DEV ' $D/ok_$f.txt)"
+  grep -E "REJECT|Error:" $D/ok_$f.txt | head -3
   grep "VIOL " $D/o_$f.txt | tr -d '"' | cut -d' ' -f4 | sort | uniq -c | sort -rn | head -20
 done
